@@ -230,7 +230,9 @@ where
         .collect();
     #[cfg(plonky2_verif)]
     let plonk_z_vecs: Vec<PolynomialValues<F>> = match crate::verif_knobs::get().z_override {
-        Some(c) => vec![PolynomialValues::constant(F::from_canonical_u64(c), degree); num_challenges],
+        Some(c) => {
+            vec![PolynomialValues::constant(F::from_canonical_u64(c), degree); num_challenges]
+        }
         None => plonk_z_vecs,
     };
     let zs_partial_products = [plonk_z_vecs, partial_products_and_zs.concat()].concat();
@@ -240,7 +242,9 @@ where
         compute_all_lookup_polys(&witness, &deltas, prover_data, common_data, has_lookup);
     #[cfg(plonky2_verif)]
     let lookup_polys: Vec<PolynomialValues<F>> = match crate::verif_knobs::get().lookup_override {
-        Some(c) => vec![PolynomialValues::constant(F::from_canonical_u64(c), degree); lookup_polys.len()],
+        Some(c) => {
+            vec![PolynomialValues::constant(F::from_canonical_u64(c), degree); lookup_polys.len()]
+        }
         None => lookup_polys,
     };
 
